@@ -40,6 +40,23 @@ def exact_norm(v, n):
     return surplus, singles, base, w
 
 
+def norm_oracle(v, n):
+    """What normalisation of the value table v must give, independent of the library: (mode, exact normalised values, tolerance).
+    mode: 'additive-exact' / 'additive-residue' (all zeros expected), 'surplus' ((v - singles) / surplus), 'grey-zone' (not judged)."""
+    size = 1 << n
+    surplus, singles, base, w = exact_norm(v, n)
+    mag = abs(Fraction(v[size - 1])) + sum(abs(x) for x in singles)
+    rel = abs(surplus) / mag if mag else Fraction(0)
+    if surplus == 0:
+        return "additive-exact", [0.0] * size, 64 * n * EPS * max(float(mag), 1e-300)
+    if rel <= Fraction(16 * n) * Fraction(EPS):
+        return "additive-residue", [0.0] * size, 64 * n * EPS * max(float(mag), 1e-300)
+    if rel < Fraction(1, 10 ** 9):
+        return "grey-zone", None, None
+    cond = float(mag / abs(surplus))
+    return "surplus", [float(x) for x in w], cond * 64 * n * EPS
+
+
 @st.composite
 def cases(draw, max_n: int):
     from .. import libgames
